@@ -10,6 +10,10 @@ from . import common as C
 
 DISPATCH = {
     "C01": ("harness.ledger", "run"),
+    "C03": ("harness.rounds", "run"),
+    "C16": ("harness.rounds", "run"),
+    "C04": ("harness.report", "run"),
+    "C05": ("harness.herdsupply", "run"),
     "C06": ("harness.herd", "run"),
     "C07": ("harness.herd", "run"),
     "C10": ("harness.units", "run"),
